@@ -12,7 +12,7 @@ def c03(tier=None):
     c = Check("C03", ["Wasp.Properties.Facts.Wiring", "Wasp.Properties.C03", "Wasp.Properties.C03C14E2E", "Wasp.Properties.C02Pool", "Wasp.Properties.C02E2E", "Wasp.Properties.C06", "Wasp.Properties.C04", "Wasp.Properties.Facts.C03"], tier)
     c.build()
     samples = []
-    scs = brokerlib.corpus(c.rng, ["slow-qos2", "wrong-type-ack", "inbound-outbound-id", "ids-return-after-recipient-vanished", "takeover-with-unacked-delivery"])
+    scs = brokerlib.corpus(c.rng, ["slow-qos2", "wrong-type-ack", "inbound-outbound-id", "ids-return-after-recipient-vanished", "takeover-with-unacked-delivery", "retransmit-then-next", "fanout-unacked-retransmit", "topic-starts-with-mount-name"])
     scs += [gen_retransmit(c.rng, c.rng.choice([1, 1, 2])) for _ in range(n_of(c, 14, 200))]
     run_scenarios(c, "retransmission-scripts", scs, samples)
     from checks import writerlib
@@ -42,7 +42,7 @@ def c14(tier=None):
     c = Check("C14", ["Wasp.Properties.Facts.Wiring", "Wasp.Properties.C14", "Wasp.Properties.C03C14E2E", "Wasp.Properties.Reachable2", "Wasp.Properties.E2EMulti", "Wasp.Properties.Facts.C14"], tier)
     c.build()
     samples = []
-    scs = brokerlib.corpus(c.rng, ["broken-recipient"])
+    scs = brokerlib.corpus(c.rng, ["broken-recipient", "alternating-hosts", "unsubscribe-overtakes-subscribe"])
     scs += [gen_faults(c.rng, c.rng.choice([2, 3, 3])) for _ in range(n_of(c, 20, 250))]
     run_scenarios(c, "cross-node-placement-and-unreachable-subsets", scs, samples)
     scs = [gen_converged(c.rng, c.rng.choice([2, 3]), 1, c.rng.choice([10, 16]), {"pub": 8, "sub": 4}) for _ in range(n_of(c, 6, 80))]
@@ -56,9 +56,11 @@ def c11(tier=None):
     samples = []
     scs = [gen_lifecycle(c.rng, c.rng.choice([1, 2, 3]), 1, takeover=0.15) for _ in range(n_of(c, 12, 160))]
     run_scenarios(c, "session-lifecycle-converged", scs, samples)
-    scs = brokerlib.corpus(c.rng, ["removal-overtakes-creation", "takeover-out-of-order"])
+    scs = brokerlib.corpus(c.rng, ["removal-overtakes-creation", "takeover-out-of-order", "concatenation-collision", "suback-unwritable", "connack-unwritable", "empty-client-id-takeover"])
     scs += [gen_lifecycle(c.rng, c.rng.choice([2, 3]), 1, takeover=0.1, fine_gossip=True) for _ in range(n_of(c, 8, 120))]
     run_scenarios(c, "session-lifecycle-gossip-schedules", scs, samples)
+    scs = [brokerlib.gen_answer_lost(c.rng) for _ in range(n_of(c, 5, 80))]
+    run_scenarios(c, "session-ends-when-an-answer-cannot-be-written", scs, samples)
     brokerlib.add_nodefail_suites(c, samples)
     brokerlib.add_timing_suites(c, samples)
     return c.finish(samples=samples, rule="case = one session script (connect, subscribe sets, publish, ping, DISCONNECT / connection loss / displacement) on 1-3 nodes; gossip fully delivered after each change (oracle on packets and on every node's listing) or link by link in random order (model comparison)")
@@ -70,7 +72,7 @@ def c12(tier=None):
     samples = []
     scs = [gen_lifecycle(c.rng, c.rng.choice([1, 2, 2]), 1, takeover=0.6) for _ in range(n_of(c, 12, 160))]
     run_scenarios(c, "takeover-converged", scs, samples)
-    scs = brokerlib.corpus(c.rng, ["takeover-out-of-order", "removal-overtakes-creation", "takeover-then-stale-snapshot", "takeover-with-unacked-delivery", "displacer-gone-before-ping"])
+    scs = brokerlib.corpus(c.rng, ["takeover-out-of-order", "removal-overtakes-creation", "takeover-then-stale-snapshot", "takeover-with-unacked-delivery", "displacer-gone-before-ping", "concatenation-collision", "empty-client-id-takeover"])
     scs += [gen_lifecycle(c.rng, c.rng.choice([2, 3]), 1, takeover=0.5, fine_gossip=True) for _ in range(n_of(c, 8, 120))]
     run_scenarios(c, "takeover-gossip-schedules", scs, samples)
     return c.finish(samples=samples, rule="case = one script with pairs / chains of connections sharing a client identifier on the same or different nodes, old-session ping / subscribe / disconnect and gossip deliveries interleaved")
@@ -82,6 +84,9 @@ def c13(tier=None):
     samples = []
     scs = [gen_converged(c.rng, c.rng.choice([1, 2, 3]), 1, c.rng.choice([8, 12]), {"end": 5, "connect": 4, "sub": 4, "pub": 2}) for _ in range(n_of(c, 12, 160))]
     run_scenarios(c, "wills-by-cause-and-placement", scs, samples)
+    scs = brokerlib.corpus(c.rng, ["connack-unwritable", "suback-unwritable", "clean-end-overtakes-creation-then-node-fails", "removal-overtakes-creation"])
+    scs += [brokerlib.gen_answer_lost(c.rng) for _ in range(n_of(c, 5, 80))]
+    run_scenarios(c, "wills-corpus-and-lost-answers", scs, samples)
     brokerlib.add_nodefail_suites(c, samples)
     return c.finish(samples=samples, rule="case = one script in which sessions with wills (topic, payload, QoS, retain varied) end by DISCONNECT or connection loss, watchers on 1-3 nodes; plus node-failure cases")
 
@@ -92,7 +97,7 @@ def c17(tier=None):
     samples = []
     scs = [gen_converged(c.rng, c.rng.choice([1, 2]), c.rng.choice([2, 3]), c.rng.choice([12, 18]), {"pub": 8, "sub": 5, "end": 2}) for _ in range(n_of(c, 10, 150))]
     run_scenarios(c, "tenants-publish-retain-will", scs, samples)
-    scs = brokerlib.corpus(c.rng, ["same-client-id-two-tenants", "same-client-id-overlapping-qos2"])
+    scs = brokerlib.corpus(c.rng, ["same-client-id-two-tenants", "same-client-id-overlapping-qos2", "concatenation-collision", "topic-starts-with-mount-name"])
     scs += [gen_lifecycle(c.rng, c.rng.choice([1, 2]), 2, takeover=0.6) for _ in range(n_of(c, 8, 120))]
     run_scenarios(c, "tenants-shared-client-ids", scs, samples)
     # wills of a failed node's sessions stay inside their own mount points
@@ -105,7 +110,7 @@ def c02(tier=None):
     c = Check("C02", ["Wasp.Properties.Facts.Wiring", "Wasp.Properties.C02", "Wasp.Properties.C02Pool", "Wasp.Properties.C02E2E", "Wasp.Properties.Reachable", "Wasp.Properties.C15", "Wasp.Properties.Facts.C15", "Wasp.Properties.Facts.C02"], tier)
     c.build()
     samples = []
-    scs = brokerlib.corpus(c.rng, ["first-message", "slow-qos2", "inbound-outbound-id", "ids-return-after-recipient-vanished", "broken-recipient", "late-pubrel-after-timeout"])
+    scs = brokerlib.corpus(c.rng, ["first-message", "slow-qos2", "inbound-outbound-id", "ids-return-after-recipient-vanished", "broken-recipient", "late-pubrel-after-timeout", "retransmit-then-next"])
     scs += [gen_converged(c.rng, 1, 1, c.rng.choice([10, 14]), {"pub": 10, "sub": 3, "unsub": 0.5, "end": 0.5}) for _ in range(n_of(c, 8, 100))]
     run_scenarios(c, "acked-publish-delivered", scs, samples)
     # acknowledged publishes must reach subscribers whose earlier QoS 1/2 exchanges are slow, time out and are resumed
